@@ -603,6 +603,11 @@ def _backward(db, chk, cs, cg, rule="C13.R4-backward-attachment"):
         chk.ob(rule, "re-parented = the root's children whose span lies within the annotation's span (ts >= parent.ts and end <= parent.end)", okc, cs.loc(u), found=det,
                accepted=["index in root.children", "ts >= parent.ts", "end <= parent.end"])
         chk.ob(rule, "the new parent passed on is the annotation event", to_term(seen[0][1]) == NP, cs.loc(u), found=T.show(to_term(seen[0][1])), accepted="new_parent_index")
+        # the stack keeps its own root while that root still exists (the method is called once per annotation: later calls take the first layer from the SAME root)
+        roots = [to_term(r.env["self"].attrs.get("root_index")) for r in runs if isinstance(r.env.get("self"), Obj)]
+        chk.ob(rule, "the stack's root stays its root as long as the root node exists (re-rooting only after the old root was emptied and deleted)", all(x == ROOT for x in roots) if roots else None, cs.loc(u),
+               found=sorted({T.show(x) for x in roots}), accepted="$ROOT",
+               why="re-rooting at the new parent's root after the first annotation makes the following calls read the main thread's first layer: the operators of later steps are never attached")
     else:
         chk.ob(rule, "update_parent_of_first_layer_nodes reaches _update_parent", None, cs.loc(u), found=len(runs))
     chk.floor(rule, 5)
